@@ -6,6 +6,7 @@ import (
 	"context"
 	"fmt"
 	"math/rand"
+	"sort"
 	"strings"
 	"sync"
 
@@ -178,7 +179,7 @@ func generate(sg sysgen, rng *rand.Rand) Case {
 		}
 		// Tags that contain another tag's text ("next-major" vs "next",
 		// "not-latest" vs "latest"): a tag is matched whole, not as a substring.
-		for _, t := range []string{"next-major", "next", "beta", "not-latest", "latest-rc"} {
+		for _, t := range []string{"next-major", "next", "beta", "not-latest", "latest-rc", "Latest", "LATEST"} {
 			if rng.Intn(5) == 0 {
 				k := rng.Intn(len(list))
 				if list[k].Tags == "" {
@@ -188,6 +189,15 @@ func generate(sg sysgen, rng *rand.Rand) Case {
 				}
 			}
 		}
+	}
+	if sg.name == "NPM" && rng.Intn(10) == 0 {
+		// Stratum: "latest" at the head, in the middle and at the tail of a
+		// tag list of three, on a version that is not the greatest.
+		k := rng.Intn(len(list))
+		for j := range list {
+			list[j].Tags = strings.Trim(strings.ReplaceAll(","+list[j].Tags+",", ",latest,", ","), ",")
+		}
+		list[k].Tags = gen.Pick(rng, "current,latest,lts", "latest,current,lts", "current,lts,latest", "a,latest,b", "lts,latest,latest-rc")
 	}
 	if sg.name == "NPM" && rng.Intn(12) == 0 {
 		// Stratum: a version carrying a tag whose text contains the requested tag.
@@ -360,8 +370,31 @@ func one(r *ev.Run, sg sysgen, c Case, rng *rand.Rand) {
 				r.Violation("C12:"+sg.name+":SortVersions", fmt.Sprintf("%s: SortVersions(perm %v of %v) = [%s], expected [%s]", sg.name, perm, c.List, g, w), c)
 			}
 		}
+		before := multiset(l)
 		got := resolve.MatchRequirement(q, l)
 		r.Eval(1)
+		// "The list can be in any order, which may be modified": the order,
+		// not the content. The caller's list still holds the same versions,
+		// and asking again over the same list gives the same answer without
+		// disturbing the first one.
+		if after := multiset(l); after != before && !reported {
+			reported = true
+			r.Violation("C12:"+sg.name+":list-content-changed", fmt.Sprintf("%s: after MatchRequirement(%q, …) the caller's list holds [%s], it held [%s] (as multisets)", sg.name, c.Req, after, before), c)
+		}
+		if pi < 2 {
+			first := names(got)
+			again := resolve.MatchRequirement(q, l)
+			r.Eval(1)
+			r.Count("second_call_same_list:"+sg.name, 1)
+			if g := names(again); g != wantStr && !reported {
+				reported = true
+				r.Violation("C12:"+sg.name+":second-call-same-list", fmt.Sprintf("%s: a second MatchRequirement(%q, …) over the same list object gives [%s], expected [%s]", sg.name, c.Req, g, wantStr), c)
+			}
+			if g := names(got); g != first && !reported {
+				reported = true
+				r.Violation("C12:"+sg.name+":earlier-result-changed", fmt.Sprintf("%s: the result of MatchRequirement(%q, …) was [%s] and reads [%s] after a second call over the same list", sg.name, c.Req, first, g), c)
+			}
+		}
 		if g := names(got); g != wantStr && !reported {
 			reported = true
 			law := "order"
@@ -389,6 +422,16 @@ func one(r *ev.Run, sg sysgen, c Case, rng *rand.Rand) {
 			r.Violation("C12:"+sg.name+":client", fmt.Sprintf("%s: LocalClient.MatchingVersions(%q) after adding %v in order %v = [%s], expected [%s]", sg.name, c.Req, c.List, perm, g, wantStr), c)
 		}
 	}
+}
+
+// multiset renders a list of versions as a sorted multiset of full records.
+func multiset(vs []resolve.Version) string {
+	ss := make([]string, len(vs))
+	for i, v := range vs {
+		ss[i] = v.String()
+	}
+	sort.Strings(ss)
+	return strings.Join(ss, " ")
 }
 
 func sameSet(got []resolve.Version, want []string) bool {
